@@ -328,6 +328,17 @@ func genC14(t *rapid.T) *C14Case {
 		for _, o := range scope {
 			names = append(names, o.Field+"x", strings.ToLower(o.Field)+"_", "x"+o.NsLong)
 		}
+		// names of options that exist elsewhere in the tree (other groups, commands)
+		// but not in the scope this section addresses
+		for _, o := range d.AllOpts() {
+			names = append(names, o.Field)
+			if o.NsLong != "" {
+				names = append(names, o.NsLong)
+			}
+			if o.IniName != "" {
+				names = append(names, o.IniName)
+			}
+		}
 		names = append(names, "nosuchkey", "no.such", "ß")
 		var ok []string
 		for _, n := range names {
